@@ -341,12 +341,41 @@ func scenarios(r *evid.Run) []scenario {
 		fmt.Sscan(e, &d0)
 		d1, dc = d0, d0
 	}
+	dt := r.Pick(3, 5) // timing families: many seeds, shallower
+	if e := os.Getenv("VERIF_C28_DEPTH"); e != "" {
+		dt = d0
+	}
 	all := []scenario{
 		{Name: "pre-empty", Kind: "dpos", Regime: "pre", NStake: ns, Seed: nil, Depth: d0},
 		{Name: "pre-seeded", Kind: "dpos", Regime: "pre", NStake: ns, Seed: []string{"reg:0", "reg:1", "top:0", "stk:0", "wait"}, Depth: d1},
 		{Name: "active-seeded", Kind: "dpos", Regime: "active", NStake: ns, Seed: []string{"reg:1", "stk:0", "wait"}, Depth: d1},
 		{Name: "cr-candidates", Kind: "cr", Seed: nil, Depth: dc},
 		{Name: "cr-council", Kind: "cr", Seed: []string{"regall", "top:c1", "e4", "vote:v1:a", "e"}, Depth: dc},
+	}
+	// Timing families: a cancellation placed at every block offset in [-2, +2] around
+	// (boundary height - DepositLockupBlocks), the boundary being a height at which deposit
+	// locks are released wholesale, so a release by lock-up expiry can coincide with it.
+	// CR: the first committee change at height 8 (lock-up 3 -> unregistration at 3..7; the seed
+	// stops at height 7, the change block itself is explored).
+	crTiming := [][]string{
+		{"regall", "e", "unreg:c3", "e3", "vote12"},
+		{"regall", "e2", "unreg:c3", "e2", "vote12"},
+		{"regall", "e3", "unreg:c3", "e", "vote12"},
+		{"regall", "e4", "unreg:c3", "vote12"},
+		{"regall", "e4", "e", "vu:c3"},
+	}
+	for i, s := range crTiming {
+		all = append(all, scenario{Name: fmt.Sprintf("cr-timing%+d", i-2), Kind: "cr", Seed: s, Depth: dt})
+	}
+	// DPoS: DPoSV2ActiveHeight = base+12 retires every DPoS v1 producer (lock-up 3 -> cancel
+	// at base+7..base+11).
+	for k := 0; k < 5; k++ {
+		s := []string{"reg:0", "top:0", "tick", "tick", "tick", "tick"}
+		for j := 0; j < k; j++ {
+			s = append(s, "tick")
+		}
+		s = append(s, "can:0")
+		all = append(all, scenario{Name: fmt.Sprintf("activating-timing%+d", k-2), Kind: "dpos", Regime: "activating", NStake: 1, Seed: s, Depth: dt})
 	}
 	if only := os.Getenv("VERIF_C28_ONLY"); only != "" { // development aid
 		var sel []scenario
